@@ -145,6 +145,25 @@ CHECKS = {
         "`bloc -i` on stdin are compared by marker lines, and `save` of the session is reloaded through `bloc file`.",
    note="trusted: harness rendering of returned values mirrors the documented CLI format (cliRender); interactive mode is only fed generated programs (never fuzz bytes: it has a shell escape); LD_LIBRARY_PATH contains only libblocc",
    design="4/C19"),
+ "C18": dict(
+   technique="reference-model / independent-reader monitors over generated module scripts (bytearray stream model, CPython sqlite3 and UTF-8 decoder, csv round trip) + ASan/UBSan on the real modules",
+   text="Generated scripts use the real csv, file, sqlite3 and utf8 modules in a trusted context (scratch working directory); all data enters through "
+        "host-stored variables and leaves through bit-exact dumps. csv: rows of 1..6 byte-string fields over an alphabet biased to separator, quote, "
+        "CR, LF, space and 8-bit bytes, ~40 separator/quote pairs incl. 8-bit, CR/LF and random ones, both constructors; deserialize(serialize(row)) "
+        "must give the row (and leave the argument unchanged), again when the record is cut after every LF and fed through deserialize/"
+        "deserialize_next (flags TRUE..TRUE,FALSE); tuples of integer/decimal/boolean/string must give str() of each member. file: histories of "
+        "1..12 write/read(string|bytes)/readln/seekset/seekcur/seekend/position/flush operations in ten open modes on files of 0..9000 bytes with "
+        "sizes around 4096/8192 are mirrored on a bytearray model (every returned count, datum, position, errno) and the file is then read by "
+        "python and compared byte for byte; stat size/type after close. sqlite3: 1..5 rows x 1..5 columns of integer/decimal/string/bytes/null "
+        "(boundary integers, inf, -0.0, subnormals, strings with NUL and invalid UTF-8, empty bytes) inserted through exec(stmt,tuple), "
+        "query(...returning), prepare/bind/execute and prepare/bind/<drop the tuple>/execute; read back by query(), query() with a bound key, "
+        "prepare/execute/fetch, typeof(), and by CPython's sqlite3 from the same file. utf8: strings of code points from every plane/boundary; "
+        "count/rawsize/string/empty/at(all)/substr/insert(code point|other object|itself)/remove/append/concat/copy against python's decoder over a "
+        "boundary lattice of positions. Tolerance scripts call every method of every module with null, negative, huge and malformed arguments "
+        "(invalid UTF-8, unbalanced quotes, closed handles, missing files, wrong tuple arity): value or BLOC error, no sanitizer report, no foreign exception.",
+   note="trusted: python's bytearray/sqlite3/codecs as independent readers; glibc's initial position in a+ mode is not asserted; NaN is not bound; "
+        "libsqlite3 is uninstrumented (its malloc/free/memcpy are intercepted); known finding: utf8 strings drop U+0000",
+   design="4/C18"),
  "C06": dict(
    technique="reference-interpreter monitor (python model of the documented loop/conditional semantics) over generated programs + post-run invariant hooks (control stack, symbol flags) + ASan/UBSan",
    text="Loop headers are enumerated bounded-exhaustively (bounds in {-2..2, INT64_MIN..+2, INT64_MAX-2.., null} x steps {absent,1,2,3,0,-1,null,INT64_MAX} x "
